@@ -75,7 +75,12 @@ static int zones(const ZI* const* reg, int n, int i0, int i1, long grid, int nco
     ZP proc; ZP others[4];
     TimeZone direct = TimeZone::forZoneInfo(reg[i], &proc);
     TimeZone managed = mgr.createForZoneIndex((uint16_t) i);
-    TimeZone tzs[2] = {direct, managed};
+    // manager-created values for the same zone obtained in the three documented ways: by index, by name, by id
+    char zname[96]; strncpy(zname, (const char*) ZONE(reg[i]).name(), sizeof zname - 1); zname[sizeof zname - 1] = 0;
+    TimeZone byName = mgr.createForZoneName(zname);
+    TimeZone byId = mgr.createForZoneId(ZONE(reg[i]).zoneId());
+    if (byName.isError() || byId.isError() || !(byName == managed) || !(byId == managed)) fail("manager-created zone by name / by id is not the zone created by index", 0, i, byName.isError() * 2 + byId.isError());
+    TimeZone tzs[4] = {direct, managed, byName, byId};
     long prevOff = 999999;
     std::vector<long> ts;
     for (long t = 0; t < 18263L * 86400; t += grid) {
@@ -93,7 +98,8 @@ static int zones(const ZI* const* reg, int n, int i0, int i1, long grid, int nco
     for (size_t q = 0; q < ts.size(); q++) {
       long t = ts[q];
       if (t < 0 || t >= 18263L * 86400 - 7300) continue;
-      for (int v = 0; v < 2; v++) {
+      for (int v = 0; v < 4; v++) {
+        if (v >= 2 && q % 4 != 0) continue;      // (the by-name and by-id values: every fourth instant)
         ZonedDateTime z = ZonedDateTime::forEpochSeconds((acetime_t) t, tzs[v]);
         nops++;
         if (z.isError()) { fail("zoned date-time of a supported instant is an error", t, i, v); continue; }
